@@ -23,6 +23,7 @@ const (
 	FaultIOErr   = "ioerr"
 	FaultGarbage = "garbage"
 	FaultStall   = "stall" // no data for StallFor fake time, then EOF
+	FaultFlip    = "flip"  // the byte at offset At is XOR-ed with Mask; the stream goes on
 )
 
 // PipeFault is a fault placed at byte offset At of the stream.
@@ -31,6 +32,7 @@ type PipeFault struct {
 	At       int64
 	Junk     []byte        // for garbage: bytes delivered instead of the rest of the stream
 	StallFor time.Duration // for stall
+	Mask     byte          // for flip
 }
 
 // ErrInjected is the I/O error returned by ioerr faults.
@@ -220,7 +222,7 @@ func (p *Pipe) Read(b []byte) (int, error) {
 			if p.rclosed || p.wclosed || len(p.buf) > 0 {
 				return true
 			}
-			return p.fault.Kind != FaultNone && p.fault.At >= 0 && p.consumed >= p.fault.At
+			return p.fault.Kind != FaultNone && p.fault.Kind != FaultFlip && p.fault.At >= 0 && p.consumed >= p.fault.At
 		})
 		p.mu.Lock()
 		p.ReadCalls++
@@ -229,7 +231,7 @@ func (p *Pipe) Read(b []byte) (int, error) {
 			return 0, io.ErrClosedPipe
 		}
 		// fault at the current offset?
-		if p.fault.Kind != FaultNone && p.fault.At >= 0 && p.consumed >= p.fault.At {
+		if p.fault.Kind != FaultNone && p.fault.Kind != FaultFlip && p.fault.At >= 0 && p.consumed >= p.fault.At {
 			f := p.fault
 			p.faultFired = true
 			switch f.Kind {
@@ -287,7 +289,7 @@ func (p *Pipe) Read(b []byte) (int, error) {
 		if n > len(p.buf) {
 			n = len(p.buf)
 		}
-		if p.fault.Kind != FaultNone && p.fault.At >= 0 && p.consumed+int64(n) > p.fault.At {
+		if p.fault.Kind != FaultNone && p.fault.Kind != FaultFlip && p.fault.At >= 0 && p.consumed+int64(n) > p.fault.At {
 			n = int(p.fault.At - p.consumed)
 			if n == 0 {
 				p.mu.Unlock()
@@ -295,6 +297,10 @@ func (p *Pipe) Read(b []byte) (int, error) {
 			}
 		}
 		copy(b, p.buf[:n])
+		if p.fault.Kind == FaultFlip && p.fault.At >= p.consumed && p.fault.At < p.consumed+int64(n) {
+			b[p.fault.At-p.consumed] ^= p.fault.Mask
+			p.faultFired = true
+		}
 		Tracef("pipe %s read off=%d n=%d of %d avail (buf %d) by %s", p.cfg.Name, p.consumed, n, avail, len(b), CurrentName())
 		p.buf = p.buf[n:]
 		if len(p.buf) == 0 {
